@@ -46,6 +46,7 @@ type c11Op struct {
 	Target int    `json:"target,omitempty"`
 	Pat    int    `json:"pat,omitempty"` // 0 always fails, 1 fails on odd firings, 2 returns nil
 	Ek     int    `json:"ek,omitempty"`  // reg: 0 = kinds cycle, k+1 = this callback's errors are all of kind k
+	Do     int    `json:"do,omitempty"`  // reg: what the callback does besides returning: 0 nothing, 1 records an error on its target (row.AddError / t.AddError), 2 adds a cell to the row, 3 prepares a nested table for rendering
 	How    int    `json:"how,omitempty"` // newrow: 0 NewRow(), 1 NewRowWithCapacity(n), 2 t.NewRowSizedFor()
 }
 
@@ -450,7 +451,11 @@ func c11RunCont(sp c11Spec) CaseOut {
 			}
 		}
 		desc.Steps = append(desc.Steps, sd)
-		steps = append(steps, cqPair(coqOp, "Ok "+cqPair(a.Coq(), b.Coq())))
+		if a.eq(b) {
+			steps = append(steps, "s1 ("+coqOp+") "+a.Coq())
+		} else {
+			steps = append(steps, "s2 ("+coqOp+") "+a.Coq()+" "+b.Coq())
+		}
 	}
 	desc.Go = strings.Join(goSnip, "; ")
 	desc.Foreign = x.unexpected
@@ -489,6 +494,9 @@ func c11Has(xs []int, v int) bool {
 
 func c11KindCost(op c11Op) int {
 	n := 0
+	if op.Do != 0 {
+		n++
+	}
 	if op.Ek != 0 {
 		n++
 	}
@@ -530,7 +538,94 @@ type c11Cb struct {
 	h              *c11Table
 	set            string // tableItself tableCell tableRow colItself colCell rowItself rowCell cell
 	when, pat, cnt int
-	ek             int
+	ek, do         int
+}
+
+// the nested table a callback may prepare for rendering: an error sink of its
+// own.  In the Coq history it is the never-attached row number c11InnerID: an
+// error one of ITS callbacks returns is the event `RowAddError c11InnerID e`,
+// its Errors() is reported as that row's, and must be exactly those errors.
+const c11InnerID = 200
+
+type c11InnerCb struct{ h *c11Table }
+
+func (cb *c11InnerCb) UpdateProperties(o tabular.PropertyOwner) error {
+	h := cb.h
+	id, e := h.x.fresh()
+	h.emit(fmt.Sprintf("RowAddError %d (e %d)", c11InnerID, id), fmt.Sprintf("a callback of the nested table returns e%d", id))
+	h.raise(c11InnerID, id, "nested-table-callback")
+	return e
+}
+
+func (h *c11Table) innerTable() *tabular.ATable {
+	if h.inner == nil {
+		in := tabular.New()
+		in.AddRowItems("inner")
+		cb := &c11InnerCb{h}
+		in.RegisterPropertyCallback(in, tabular.CB_AT_RENDER_PRECELL, tabular.CB_ON_ITSELF, cb)
+		in.RegisterPropertyCallback(in, tabular.CB_AT_RENDER, tabular.CB_ON_CELL, cb)
+		in.RegisterPropertyCallback(in, tabular.CB_AT_RENDER, tabular.CB_ON_CELL, cb)
+		h.inner = in
+	}
+	return h.inner
+}
+
+// what a callback does to the table from inside (only an outermost callback
+// acts, so that a cell added from a cell callback does not recurse)
+func (cb *c11Cb) act(o tabular.PropertyOwner, site string, r int) {
+	h := cb.h
+	if cb.do == 0 || h.depth > 1 {
+		return
+	}
+	var row *tabular.Row
+	rid := -1
+	switch v := o.(type) {
+	case *tabular.Row:
+		row = v
+		if id, ok := h.rowID[v]; ok {
+			rid = id
+		} else if c11SiteHasRow(site) { // a row the running API call is still making
+			rid = r
+			h.rows[rid], h.rowID[v] = v, rid
+		}
+	case *tabular.Cell:
+		if c11SiteHasRow(site) && h.rows[r] != nil {
+			row, rid = h.rows[r], r
+		}
+	}
+	switch cb.do {
+	case 1:
+		id, e := h.x.fresh()
+		if row != nil && rid >= 0 {
+			h.emit(fmt.Sprintf("RowAddError %d (e %d)", rid, id), fmt.Sprintf("inside the callback: row %d AddError e%d", rid, id))
+			h.raise(rid, id, "rowerr-inside-callback")
+			h.tags = append(h.tags, "callback-records-on-row@"+site)
+			row.AddError(e)
+		} else {
+			h.emit(fmt.Sprintf("TableAddError (e %d)", id), fmt.Sprintf("inside the callback: table AddError e%d", id))
+			h.raise(-1, id, "tblerr-inside-callback")
+			h.tags = append(h.tags, "callback-records-on-table@"+site)
+			h.t.AddError(e)
+		}
+	case 2:
+		if row == nil || rid < 0 || h.sep[rid] || row.Cells() == nil {
+			return
+		}
+		k, kr := h.curKind, h.curRow
+		h.curKind, h.curRow = "rowadd", rid
+		h.tags = append(h.tags, "callback-adds-a-cell@"+site)
+		h.evDesc = append(h.evDesc, fmt.Sprintf("inside the callback: row %d Add(cell)", rid))
+		row.Add(tabular.NewCell("#computed"))
+		h.curKind, h.curRow = k, kr
+	case 3:
+		in := h.innerTable()
+		k, kr := h.curKind, h.curRow
+		h.curKind = "render-nested"
+		h.tags = append(h.tags, "callback-renders-nested-table@"+site)
+		h.evDesc = append(h.evDesc, "inside the callback: nested.InvokeRenderCallbacks()")
+		in.InvokeRenderCallbacks()
+		h.curKind, h.curRow = k, kr
+	}
 }
 
 type c11Table struct {
@@ -545,6 +640,8 @@ type c11Table struct {
 	nextHdr int
 	curKind string
 	curRow  int
+	depth   int
+	inner   *tabular.ATable
 	events  []string
 	evDesc  []string
 	// Go-side copy of the expected logs, only to name the failure class
@@ -557,6 +654,7 @@ type c11Table struct {
 	tags       []string
 }
 
+var c11DoName = []string{"nothing", "AddError-on-target", "row.Add(cell)", "nested.InvokeRenderCallbacks()"}
 var c11WhenName = []string{"CB_AT_ADD", "CB_AT_RENDER_PRECELL", "CB_AT_RENDER", "CB_AT_RENDER_POSTCELL"}
 var c11TargetName = []string{"CB_ON_ITSELF", "CB_ON_CELL", "CB_ON_ROW"}
 
@@ -720,6 +818,12 @@ func (cb *c11Cb) UpdateProperties(o tabular.PropertyOwner) error {
 	}
 	fail := cb.pat == 0 || (cb.pat == 1 && cb.cnt%2 == 1)
 	h.tags = append(h.tags, "fires="+site)
+	h.depth++
+	cb.act(o, site, r)
+	h.depth--
+	if h.depth > 0 {
+		h.tags = append(h.tags, "nested-firing="+site)
+	}
 	if !fail {
 		h.emit(fmt.Sprintf("CF %s %d None", site, r), fmt.Sprintf("callback at %s for row %d returns nil", site, r))
 		return nil
@@ -770,7 +874,7 @@ func (h *c11Table) register(op c11Op) (string, bool) {
 	default:
 		return "", false
 	}
-	cb := &c11Cb{h: h, set: set, when: op.When % 4, pat: op.Pat, ek: op.Ek}
+	cb := &c11Cb{h: h, set: set, when: op.When % 4, pat: op.Pat, ek: op.Ek, do: op.Do % 4}
 	tg := tabular.CB_ON_ITSELF
 	switch op.Target % 3 {
 	case 1:
@@ -788,7 +892,7 @@ func (h *c11Table) register(op c11Op) (string, bool) {
 		wh = tabular.CB_AT_RENDER_POSTCELL
 	}
 	err := h.t.RegisterPropertyCallback(owner, wh, tg, cb)
-	name := fmt.Sprintf("t.RegisterPropertyCallback(%s, %s, %s, failing(pat=%d, kind=%d))", oname, c11WhenName[op.When%4], c11TargetName[op.Target%3], op.Pat, op.Ek-1)
+	name := fmt.Sprintf("t.RegisterPropertyCallback(%s, %s, %s, failing(pat=%d, kind=%d, does=%s))", oname, c11WhenName[op.When%4], c11TargetName[op.Target%3], op.Pat, op.Ek-1, c11DoName[op.Do%4])
 	if err != nil {
 		name += " // refused"
 		h.tags = append(h.tags, "reg-refused")
@@ -1119,8 +1223,13 @@ func c11RunTable(sp c11Spec) CaseOut {
 			for _, id := range ids {
 				rvs = append(rvs, h.x.view(h.rows[id].ErrorContainer.Errors()))
 			}
+			if h.inner != nil {
+				ids = append(ids, c11InnerID)
+				rvs = append(rvs, h.x.view(h.inner.Errors()))
+			}
 		})
 		h.x.curMisuse = -1
+		h.depth = 0
 		sd := c11StepDesc{Op: name, Events: h.evDesc, Expect: c11ViewOfLog(h.expTable).String()}
 		if panicked {
 			sd.Panic = msg
@@ -1135,8 +1244,16 @@ func c11RunTable(sp c11Spec) CaseOut {
 		sd.Table = tv.String()
 		var rs, rc []string
 		for i, id := range ids {
-			rs = append(rs, fmt.Sprintf("row%d=%s", id, rvs[i]))
-			rc = append(rc, cqPair(fmt.Sprint(id), rvs[i].Coq()))
+			if id == c11InnerID {
+				rs = append(rs, fmt.Sprintf("nested-table(as row%d)=%s", id, rvs[i]))
+			} else {
+				rs = append(rs, fmt.Sprintf("row%d=%s", id, rvs[i]))
+			}
+			if rvs[i].eq(tv) && !tv.Nil {
+				rc = append(rc, cqPair(fmt.Sprint(id), "t")) // the same list as the table's: shared, to keep cases.v small
+			} else {
+				rc = append(rc, cqPair(fmt.Sprint(id), rvs[i].Coq()))
+			}
 		}
 		sd.Rows = strings.Join(rs, " ")
 		if want := c11ViewOfLog(h.expTable); !tv.eq(want) {
@@ -1171,7 +1288,7 @@ func c11RunTable(sp c11Spec) CaseOut {
 			}
 		}
 		desc.Steps = append(desc.Steps, sd)
-		steps = append(steps, cqPair(cqList(h.events), "Ok "+cqPair(tv.Coq(), cqList(rc))))
+		steps = append(steps, cqPair(cqList(h.events), "(let t := "+tv.Coq()+" in Ok "+cqPair("t", cqList(rc))+")"))
 	}
 	if desc.Sig == "" {
 		desc.Sig = sigCorr
@@ -1389,7 +1506,7 @@ func c11RandOp(r *RNG, nRows int) c11Op {
 		return pick(r, []c11Op{{Op: "render"}, {Op: "dump"}, {Op: "dump"}})
 	default:
 		owner := pick(r, []string{"table", "table", "col", "row", "row", "cell"})
-		return c11Op{Op: "reg", Owner: owner, R: row, C: r.Intn(3), When: r.Intn(4), Target: r.Intn(3), Pat: pick(r, []int{0, 0, 0, 1, 2}), Ek: pick(r, []int{0, 0, 0, 1 + r.Intn(c11Kinds)})}
+		return c11Op{Op: "reg", Owner: owner, R: row, C: r.Intn(3), When: r.Intn(4), Target: r.Intn(3), Pat: pick(r, []int{0, 0, 0, 1, 2}), Ek: pick(r, []int{0, 0, 0, 1 + r.Intn(c11Kinds)}), Do: pick(r, []int{0, 0, 0, 1, 2, 3})}
 	}
 }
 
@@ -1420,7 +1537,7 @@ func c11Gen(r *RNG, tier string) []json.RawMessage {
 	for _, reg := range c11Registrations() {
 		for p := 0; p <= len(c11Scenario); p++ {
 			for _, pat := range []int{0, 1} {
-				if pat == 1 && tier != "thorough" && p%4 != 0 {
+				if pat == 1 && tier != "thorough" {
 					continue
 				}
 				g := reg
@@ -1432,6 +1549,24 @@ func c11Gen(r *RNG, tier string) []json.RawMessage {
 		for p := 0; p <= len(c11ScenarioB); p++ {
 			ops := append(append(append([]c11Op{}, c11ScenarioB[:p]...), reg), c11ScenarioB[p:]...)
 			add(c11Spec{Kind: "table", Ops: ops})
+		}
+		// re-entrant: two (thorough: three) failing callbacks in this one list, the second one
+		// acting on the table from inside (records an error on its target, adds
+		// a cell that cell callbacks reject, prepares a nested table whose own
+		// callbacks fail)
+		for do := 1; do <= 3; do++ {
+			g := reg
+			g.Do = do
+			tc := c11Op{Op: "reg", Owner: "table", When: 0, Target: 1}
+			regs := []c11Op{tc, reg, g}
+			add(c11Spec{Kind: "table", Ops: append(append(append([]c11Op{}, c11Scenario[:3]...), regs...), c11Scenario[3:]...)})
+			add(c11Spec{Kind: "table", Ops: append(append(append([]c11Op{}, c11ScenarioB[:2]...), regs...), c11ScenarioB[2:]...)})
+			if tier == "thorough" {
+				regs = []c11Op{tc, reg, g, reg}
+				add(c11Spec{Kind: "table", Ops: append(append(append([]c11Op{}, c11Scenario[:3]...), regs...), c11Scenario[3:]...)})
+				add(c11Spec{Kind: "table", Ops: append(append(append([]c11Op{}, c11ScenarioB[:2]...), regs...), c11ScenarioB[2:]...)})
+				add(c11Spec{Kind: "table", Ops: append(append(append([]c11Op{}, c11Scenario[:3]...), tc, g, reg), c11Scenario[3:]...)})
+			}
 		}
 		// the callback returns a compound / wrapping / cause-less / non-comparable error
 		for k := 1; k < c11Kinds; k++ {
@@ -1451,13 +1586,36 @@ func c11Gen(r *RNG, tier string) []json.RawMessage {
 		{Op: "reg", Owner: "table", When: 0, Target: 2},
 		{Op: "reg", Owner: "row", R: 1, When: 1, Target: 0},
 	}
+	// the same with the row-level callbacks acting from inside (length <= 2)
+	for do := 1; do <= 3; do++ {
+		preDo := []c11Op{
+			{Op: "newrow", R: 1},
+			{Op: "reg", Owner: "row", R: 1, When: 0, Target: 1},
+			{Op: "reg", Owner: "table", When: 0, Target: 1},
+			{Op: "reg", Owner: "table", When: 0, Target: 2},
+			{Op: "reg", Owner: "table", When: 0, Target: 2, Do: do},
+			{Op: "reg", Owner: "row", R: 1, When: 0, Target: 0, Do: do},
+			{Op: "reg", Owner: "row", R: 1, When: 1, Target: 0, Do: do},
+		}
+		for n := 1; n <= 2; n++ {
+			c11Seqs(c11TableAlphabet, n, func(ops []c11Op) {
+				add(c11Spec{Kind: "table", Ops: append(append([]c11Op{}, preDo...), ops...)})
+			})
+		}
+	}
 	routing := c11TableAlphabet[:10] // without the extra row-creation ops
+	full := c11TableAlphabet
+	short := append(append([]c11Op{}, routing...), c11Op{Op: "dump"})
 	for n := 0; n <= 3; n++ {
-		c11Seqs(c11TableAlphabet, n, func(ops []c11Op) {
+		alpha := full
+		if n == 3 && tier != "thorough" {
+			alpha = short // the creation paths have their own systematic cases below
+		}
+		c11Seqs(alpha, n, func(ops []c11Op) {
 			add(c11Spec{Kind: "table", Ops: append(append([]c11Op{}, pre...), ops...)})
 		})
 		if n >= 1 {
-			c11Seqs(c11TableAlphabet, n-1, func(ops []c11Op) {
+			c11Seqs(alpha, n-1, func(ops []c11Op) {
 				add(c11Spec{Kind: "table", Ops: append([]c11Op{{Op: "newrow", R: 1}}, ops...)})
 			})
 		}
@@ -1476,6 +1634,20 @@ func c11Gen(r *RNG, tier string) []json.RawMessage {
 		}
 		add(c11Spec{Kind: "table", Ops: []c11Op{{Op: "tblerr", E: e}, {Op: "newrow", R: 1}, {Op: "rowerr", R: 1, E: e}, {Op: "rowerr", R: 1, E: e}, {Op: "dump"},
 			{Op: "addrow", R: 1}, {Op: "rowerr", R: 1, E: e}, {Op: "tbllist", L: c11L(e, 0, e)}, {Op: "dump"}, {Op: "sep", R: 2}, {Op: "rowerr", R: 2, E: e}, {Op: "dump"}}})
+	}
+	// row-level add-time callbacks that report on the row instead of returning,
+	// for every way a row is attached, with and without errors already pending
+	for do := 1; do <= 3; do++ {
+		for _, own := range []c11Op{{Op: "reg", Owner: "table", When: 0, Target: 2, Do: do}, {Op: "reg", Owner: "row", R: 1, When: 0, Target: 0, Do: do}} {
+			for _, pat := range []int{0, 2} {
+				g := own
+				g.Pat = pat
+				cellcb := c11Op{Op: "reg", Owner: "table", When: 0, Target: 1}
+				add(c11Spec{Kind: "table", Ops: []c11Op{{Op: "newrow", R: 1}, g, cellcb, {Op: "rowadd", R: 1}, {Op: "addrow", R: 1}, {Op: "tblerr", E: 1}}})
+				add(c11Spec{Kind: "table", Ops: []c11Op{{Op: "newrow", R: 1}, g, cellcb, {Op: "rowerr", R: 1, E: 1}, {Op: "addrow", R: 1}, {Op: "rowerr", R: 1, E: 1}}})
+				add(c11Spec{Kind: "table", Ops: []c11Op{{Op: "newrow", R: 1, How: 2}, g, g, {Op: "addrow", R: 1}, {Op: "appendnew", R: 2}, {Op: "addrowitems", R: 3, N: 1}, {Op: "headers", N: 1}, {Op: "dump"}}})
+			}
+		}
 	}
 	// tables: every way a row (or the header row) comes to exist, in every
 	// situation of errors already held by the table and by other rows
@@ -1560,6 +1732,11 @@ func c11Shrink(spec json.RawMessage) []json.RawMessage {
 			o.Ek = 0
 			repl(o)
 		}
+		if op.Do != 0 {
+			o := op
+			o.Do = 0
+			repl(o)
+		}
 		if op.E > 1 {
 			o := op
 			o.E = 1
@@ -1606,11 +1783,11 @@ func init() {
 		Rule: "rows made by NewRow, NewRowWithCapacity, t.NewRowSizedFor, t.AppendNewRow, t.AddRowItems, AddHeaders and AddSeparator, before and after the table and other rows hold errors; container histories over {AddError nil/e, AddErrorList nil/[]/[e]/[nil]/[e;nil;e'], Errors, AddErrorList(Errors())} on a nil pointer, " +
 			"&ErrorContainer{} and NewErrorContainer(), the caller overwriting its slice after every AddErrorList; table histories over NewRow, Row.Add " +
 			"(detached, attached, on a separator), Row.AddError, Table.AddError, Table.AddErrorList, AddRow, AppendNewRow, AddRowItems, AddSeparator, AddHeaders, " +
-			"InvokeRenderCallbacks, with failing callbacks registered through RegisterPropertyCallback on table / column / row / cell owners for every target and time, " +
+			"InvokeRenderCallbacks, with failing callbacks (which may also act from inside: AddError on their target, Row.Add of a cell that cell callbacks reject, InvokeRenderCallbacks of a nested table whose own callbacks fail; >= 2 failing callbacks per list) registered through RegisterPropertyCallback on table / column / row / cell owners for every target and time, " +
 			"before and after attach; all error values distinct, of 7 dynamic kinds (plain, errors.Join, fmt.Errorf with two %w, custom Unwrap() []error with and without causes, Unwrap() error, non-comparable), with messages never in alphabetical order of occurrence; a dump op (%#v, %v, GoString of table/rows/cells and every read-only accessor) between steps; Errors() of the table, of every row and of the container read after every step; " +
 			"non-trivial = at least one non-nil error is raised; distinct = distinct (history, observations)",
 		Exhaustive: "all 4096 container op sequences of length 4 (hence all shorter ones, as prefixes) over 8 ops x 3 creation modes; every accepted registration " +
-			"(owner x target x time) at every position of a 15-step and of an 8-step build scenario, and with the callback returning each of the 7 kinds of error value; all table histories of length <= 3 over a 14-op alphabet (routing ops plus NewRowSizedFor/AddRow, AppendNewRow, AddRowItems; thorough: also length 4 over the 10 routing ops); every row-creation path (NewRow, NewRowWithCapacity, NewRowSizedFor, AppendNewRow, AddRowItems, AddHeaders, AddSeparator) x 9 situations of errors already held x 4 uses, each path taken twice",
+			"(owner x target x time) at every position of a 15-step and of an 8-step build scenario, and with the callback returning each of the 7 kinds of error value; all table histories of length <= 2 over a 15-op alphabet (10 routing ops, NewRowSizedFor/AddRow, AppendNewRow, AddRowItems, dump) and of length 3 over the routing ops plus dump (thorough: length 3 over all 15, length 4 over the 10 routing ops), and of length <= 2 with callbacks acting from inside; every row-creation path (NewRow, NewRowWithCapacity, NewRowSizedFor, AppendNewRow, AddRowItems, AddHeaders, AddSeparator) x 9 situations of errors already held x 4 uses, each path taken twice",
 		Gen: c11Gen,
 		Run: func(spec json.RawMessage) CaseOut {
 			var sp c11Spec
